@@ -93,9 +93,6 @@ class SessionModel(object):
                 return ('exc', ('InvalidResponseError',), None)
             return ('pull', expand(f['content']))
         if k == 'push':
-            pf = d.get('push_fail')
-            if pf and pf.get('path') in (None, path) and op.get('src') != 'dir':
-                return ('pushfail', bytes.fromhex(pf.get('reason', b'Permission denied'.hex())))
             if br.get('send'):
                 return ('exc', ('InvalidResponseError',), None)
             return ('push',)
@@ -168,6 +165,11 @@ def check_session(run, scn, actor=0, model=None, relaxed_from=None):
                 if exp[2] not in full and not relaxed:
                     probs.append(P('reason-missing', '%s raised %s without the device\'s reason %r: %r' % (where, rec['exc'], exp[2][:60], full[:120])))
             continue
+        if exp[0] == 'push':
+            # did the device answer FAIL during this call? (ground truth, not a re-derivation of the chunking)
+            failed = [a for a in dev.push_attempts if rec['t0'] <= a['t0'] <= rec.get('t1', rec['t0']) and a.get('fail') is not None]
+            if failed:
+                exp = ('pushfail', bytes(failed[0]['fail']))
         if not rec['ok']:
             if op['op'] == 'connect':
                 m.connected = False
